@@ -15,6 +15,16 @@ CLAIMED = {
          "No counterexample among generated mixes of clients and hosts finishing Ok/Err/never/panicking (main future or spawned task) at generated virtual times over 1-3 register-then-run phases, with run() and step() loops, crashes and random order: the observed result (Ok / which software error / duration error / panic) and Sim::elapsed always lay in the admissible set computed by an independent model, and background tasks of finished or crashed software never advanced again.",
          "Boundary finishes and same-step failures are admitted in either order, as the property text allows; the step at which a panic surfaced is not observable; scenarios stop at the first error.",
          "DESIGN.md §6 C11"),
+ "C14": ("exploration",
+         "property-based testing (proptest) of generated latency configurations, overrides and traffic against the arithmetic window min-tick <= receipt-send <= max+tick and a send-order oracle for fixed latencies",
+         "No counterexample among generated scenarios (tick, global min/max/lambda, per-link fixed and max overrides applied before and during the run by name/IP/regex, UDP and TCP flows with bursts at sub-tick instants, random host order, v4/v6): every message was received exactly once inside the window implied by the setting in force at its send, and UDP messages sent under one fixed latency arrived in send order.",
+         "Receivers block in recv and record their own sim_elapsed; precondition max >= min is respected by the generator; global-maximum changes after a link override are not generated.",
+         "DESIGN.md §6 C14"),
+ "C03": ("fault_enumeration",
+         "bounded-exhaustive enumeration of all partition/repair call sequences of length <= 3 plus property-based random sequences, checked against a link-state model driven by the controller's own calls over an execution-ordered event log",
+         "Every sequence of length <= 3 over {partition, partition_oneway, repair, repair_oneway} x {(A,B),(B,A)} was executed at several placements, latencies and fail/repair rates, and random longer sequences (from the Sim handle and from host code, by name/IP/regex, 2-4 hosts, UDP + TCP + connect probes): no message sent while its direction was explicitly cut, or in flight (per Sim::links) when the cut was imposed, was ever received, under every fail/repair rate; with fail_rate = 0 every other message was received exactly once and connects on clear directions succeeded.",
+         "In-flight sets are read from Sim::links immediately before Sim-side calls and computed from the fixed latency for host-side calls; ambiguous messages under ranged latency + host-side calls are neither required nor forbidden; hold/release excluded as documented.",
+         "DESIGN.md §6 C03"),
 }
 
 PENDING_REASON = "check not built yet in this round (planned, see DESIGN.md §6); not claimed until its check exists and has been shown silent on the unchanged tree"
